@@ -1,5 +1,6 @@
 import SciVerif.Drive.Util
 import SciVerif.Model.C17
+import SciVerif.Lemmas.C17j
 open Lean SciVerif.Drive
 
 namespace SciVerif.C17.Drive
@@ -287,6 +288,62 @@ def runQuery (j : Json) : Except String Json := do
   let ns : List Node := names.map blankNode
   pure (jarr (fun (n : Node) => jS n.name) (query ns (parseQuery q)))
 
+/-! ### tie of the refinement theorems' own definitions to the programs that are run
+
+`C17_refinement_nested_imports_partial` speaks about the line record `impAt i pre source q` and the
+destination `impDest parents i pre`; `C17_refinement_checked_partial` about the check `fragRunB`.
+For every import line of a main program the driver evaluates these definitions where the model
+stands when it reaches the line, and compares them with the line record the harness built from the
+program text and with the destination of the specification statement (which is compared with the
+real code by the environment comparison). -/
+
+/-- the import lines of a program with the hierarchy stack the model holds when it reaches them -/
+def impSites (tbl : UnitTable) : CEnv → List Item → List (List (Nat × Str) × Node)
+  | _, [] => []
+  | c, it :: rest =>
+    let here := match it with
+      | .node n => if n.kw = .imp then [(c.env.parents, n)] else []
+      | _ => []
+    here ++ (match stepC tbl c it with
+      | .ok c' => impSites tbl c' rest
+      | .error _ => [])
+
+def tieOne (x : (List (Nat × Str) × Node) × (List Str × Option Str × SQuery)) : Json :=
+  let ps := x.1.1
+  let n := x.1.2
+  let dest := x.2.1
+  let source := x.2.2.1
+  let q := x.2.2.2
+  let pre : List Str := match (splitDotBrace n.name).dropLast with
+    | [] => []
+    | p :: _ => splitDot p
+  let a := impAt n.indent pre source q
+  Json.mkObj [
+    ("line", Json.bool (decide (a.name = n.name) && decide (a.ref = n.ref) && decide (a.indent = n.indent))),
+    ("dest", Json.bool (decide (impDest ps n.indent pre = dest))),
+    ("indent", jnat n.indent)]
+
+def runTie (tbl : UnitTable) (mj sj : Json) : Except String Json := do
+  let srcs ← getList (fieldD mj "sources" |> fun x => if x == Json.null then Json.arr #[] else x)
+  match parseSources tbl srcs [] [] with
+  | .error _ => pure Json.null
+  | .ok (sources, srcUnits) =>
+    let env0 : Env := { Env.empty with sources := sources, srcUnits := srcUnits }
+    let baseJ := fieldD mj "base"
+    let mainItems ← (← getList (← field mj "main")).mapM getItem
+    let mainStmts ← (← getList (← field sj "main")).mapM getStmt
+    let baseItems ← if baseJ == Json.null then pure [] else (← getList baseJ).mapM getItem
+    match (if baseJ == Json.null then Except.ok env0 else parseC tbl env0 baseItems) with
+    | .error _ => pure Json.null
+    | .ok benv =>
+      let sites := impSites tbl ⟨benv, none⟩ mainItems
+      let imps := mainStmts.filterMap (fun s => match s with
+        | .imp d so q => some (d, so, q)
+        | _ => none)
+      let frag := fragRunB tbl (absEnv benv) mainStmts
+      pure (Json.mkObj [("imports", Json.arr ((sites.zip imps).map tieOne).toArray),
+                        ("frag", Json.bool frag)])
+
 def handle (j : Json) : Except String Json := do
   let k ← (← field j "k").getStr?
   match k with
@@ -294,7 +351,8 @@ def handle (j : Json) : Except String Json := do
     let tbl ← getTbl (← field j "tbl")
     let m ← runModel tbl (← field j "model")
     let s ← runSpec tbl (← field j "spec")
-    pure (Json.mkObj [("model", m), ("spec", s)])
+    let t ← runTie tbl (← field j "model") (← field j "spec")
+    pure (Json.mkObj [("model", m), ("spec", s), ("tie", t)])
   | "slice" => runSlice j
   | "query" => runQuery j
   | _ => throw s!"C17: unknown kind {k}"
